@@ -1,1 +1,3 @@
+/- C05: HCM stress-strain bookkeeping, point by point. -/
 import Model.HCMSpec
+import Proofs.C05Core
